@@ -42,3 +42,14 @@ prop("C09",
      level_note="Trusted: Lean kernel; the extract translator + Go-lite interpreter (differentially validated against the compiled code on all 65536 wait-status patterns); wait-status encoding model; README table transcription",
      technique="Lean 4 kernel evaluation (decide +kernel) of regenerated Go-lite code over the whole finite domain + differential + exhaustive real runs",
      timeout={"quick": 1500, "thorough": 3600})
+
+prop("C15",
+     trusted_base=["hand model Model/GetString.lean of clen/hasNull/vmReadStr/GetString over an abstract page-granular address space, tied to the real functions by the in-process differential on real memory with PROT_NONE holes",
+                   "kernel assumptions: mapping is page granular; process_vm_readv of one iovec inside one page is all-or-EFAULT; PTRACE_PEEKDATA reads aligned words",
+                   "Go-lite interpretation of the regenerated clen/hasNull/handleTrap/ptraceHandle.handle (Gen.C15, Gen.C09)"],
+     assumptions=["event order of ptrace stops is a model parameter (partial for the race part): the theorem covers every single event with every ptrace request answering ESRCH; the real race is sampled",
+                  "maximality of the string returned by GetString (it is not cut short) is covered by the differential only; totality, PATH_MAX bound, NUL-freeness and content are proved"],
+     not_covered="Go runtime faults outside the modelled functions are covered only by the hostile real runs; tracerHandler.Handle's decode path is C02's",
+     level_text="Theorems for every address space and every pointer: GetString never panics, returns at most PATH_MAX NUL-free bytes that are exactly the tracee's bytes at that address; kernel-evaluated theorems on the regenerated tracer code that a tracee vanishing under any ptrace request (ESRCH) yields no verdict (never Runner Error / Disallowed Syscall) while a live set-regs failure still fails closed; differential on real memory and hostile real tracees",
+     level_note="Trusted: Lean kernel; hand model of the string reader (differentially tied); kernel memory/ptrace assumptions; translator + Go-lite interpreter. Partial for real ptrace races (sampled)",
+     technique="Lean 4 proofs (induction over the chunked read loop) + decide +kernel on regenerated Go-lite code + differential + hostile real runs")
